@@ -385,3 +385,196 @@ theorem crop_invalid (v : View) (l t : Int) (w h : Nat) (hinv : ¬ v.abs.ValidCr
   rfl
 
 end Gzx.Luminance
+
+namespace Gzx.Luminance
+open Gzx
+
+/-! ## Invert -/
+
+theorem baseRows_bytes (v : View) (hv : v.WF) : ∀ r ∈ v.baseRows, ∀ p ∈ r, p ≤ 255 := by
+  intro r hr p hp
+  simp only [View.baseRows, List.mem_map, List.mem_range] at hr
+  obtain ⟨y, _, rfl⟩ := hr
+  exact hv.bytes p (List.mem_of_mem_drop (List.mem_of_mem_take hp))
+
+theorem invert_invert_rows (rows : List (List Nat)) (h : ∀ r ∈ rows, ∀ p ∈ r, p ≤ 255) :
+    (rows.map (fun r => r.map (fun v => 255 - v))).map (fun r => r.map (fun v => 255 - v)) = rows := by
+  rw [List.map_map]
+  conv => rhs; rw [← List.map_id rows]
+  apply List.map_congr_left
+  intro r hr
+  simp only [Function.comp, List.map_map, id]
+  conv => rhs; rw [← List.map_id r]
+  apply List.map_congr_left
+  intro p hp
+  have := h r hr p hp
+  simp only [Function.comp, id]
+  omega
+
+theorem abs_invert (v : View) (hv : v.WF) : (invert v).abs = v.abs.invert := by
+  unfold View.abs invert
+  have hb : ({ v with inv := !v.inv } : View).baseRows = v.baseRows := rfl
+  by_cases hi : v.inv
+  · simp only [hi, Bool.not_true, if_true, Img.invert, hb]
+    have hf : (false = true) = False := by simp
+    simp only [hf, if_false, Img.mk.injEq, true_and]
+    exact (invert_invert_rows v.baseRows (baseRows_bytes v hv)).symm
+  · have hi' : v.inv = false := by simpa using hi
+    simp only [hi', Bool.not_false, if_true]
+    have hf : (false = true) = False := by simp
+    simp only [hf, if_false]
+    rfl
+
+theorem invert_wf (v : View) (hv : v.WF) : (invert v).WF := ⟨hv.len, hv.horiz, hv.vert, hv.bytes⟩
+
+/-! ## RotateCounterClockwise -/
+
+theorem idx_ok (l : List Nat) (i : Nat) (h : i < l.length) : idx l i = .ok ((l[i]?).getD 0) := by
+  unfold idx
+  simp [h]
+
+theorem unflatten (R : List (List Nat)) (h : Nat) (hR : ∀ r ∈ R, r.length = h) :
+    (List.range R.length).map (fun y => (R.flatten.drop (y * h)).take h) = R := by
+  induction R with
+  | nil => rfl
+  | cons r rs ih =>
+    have hr := hR r (by simp)
+    rw [List.length_cons, List.range_succ_eq_map]
+    simp only [List.map_cons, List.map_map, List.flatten_cons, Nat.zero_mul, List.drop_zero]
+    congr 1
+    · rw [List.take_append_of_le_length (by omega), List.take_of_length_le (by omega)]
+    · conv => rhs; rw [← ih (fun q hq => hR q (by simp [hq]))]
+      apply List.map_congr_left
+      intro y _
+      simp only [Function.comp]
+      congr 1
+      rw [List.drop_append]
+      have e : (y + 1) * h - r.length = y * h := by rw [Nat.succ_mul]; omega
+      rw [e, List.drop_of_length_le (by rw [Nat.succ_mul]; omega)]
+      simp
+
+/-- the cell the rotation reads for new row `j`, new column `i` -/
+def View.rotCell (v : View) (j i : Nat) : Nat :=
+  (v.data[(v.top + i) * v.dataW + (v.left + v.w - 1 - j)]?).getD 0
+
+def View.rotRows (v : View) : List (List Nat) :=
+  (List.range v.w).map (fun j => (List.range v.h).map (fun i => v.rotCell j i))
+
+theorem rotRow_ok (v : View) (hv : v.WF) (j : Nat) (hj : j < v.w) :
+    rotRow v j = .ok ((List.range v.h).map (fun i => v.rotCell j i)) := by
+  unfold rotRow
+  apply mapME_eq_map
+  intro i hi
+  have hi' : i < v.h := List.mem_range.mp hi
+  have := row_end_le v hv i hi'
+  have hlt : (v.top + i) * v.dataW + (v.left + v.w - 1 - j) < v.data.length := by
+    rw [Nat.add_comm v.top i]; omega
+  rw [idx_ok _ _ hlt]
+  rfl
+
+theorem rotCell_eq (v : View) (hv : v.WF) (j i : Nat) (hj : j < v.w) (hi : i < v.h) :
+    v.rotCell j i = ((v.baseRow i)[v.w - 1 - j]?).getD 0 := by
+  unfold View.rotCell View.baseRow
+  have h1 : v.w - 1 - j < v.w := by omega
+  rw [List.getElem?_take_of_lt h1, List.getElem?_drop]
+  congr 2
+  rw [Nat.add_comm v.top i]; omega
+
+theorem rotRows_eq (v : View) (hv : v.WF) :
+    v.rotRows = (Img.mk v.w v.h v.baseRows).rotCCW.rows := by
+  simp only [View.rotRows, Img.rotCCW, View.baseRows, List.map_map]
+  apply List.map_congr_left
+  intro j hj
+  apply List.map_congr_left
+  intro i hi
+  simp only [Function.comp]
+  rw [rotCell_eq v hv j i (List.mem_range.mp hj) (List.mem_range.mp hi)]
+  simp [List.getD]
+
+theorem rot_invert_rows (m : Img) (hm : m.WF) : m.invert.rotCCW = m.rotCCW.invert := by
+  simp only [Img.invert, Img.rotCCW, Img.mk.injEq, true_and, List.map_map]
+  apply List.map_congr_left
+  intro j hj
+  have hj' : j < m.w := List.mem_range.mp hj
+  simp only [Function.comp, List.map_map]
+  apply List.map_congr_left
+  intro r hr
+  have hl := hm.2 r hr
+  have hlt : m.w - 1 - j < r.length := by omega
+  simp [Function.comp, List.getD, hlt]
+
+theorem rot_baseRows (v v' : View) (hd : v'.data = v.rotRows.flatten) (hW : v'.dataW = v.h)
+    (hl : v'.left = 0) (ht : v'.top = 0) (hw : v'.w = v.h) (hh : v'.h = v.w) : v'.baseRows = v.rotRows := by
+  have hlenR : ∀ r ∈ v.rotRows, r.length = v.h := by
+    intro r hr
+    simp only [View.rotRows, List.mem_map, List.mem_range] at hr
+    obtain ⟨j, _, rfl⟩ := hr
+    simp
+  have hcount : v.rotRows.length = v.w := by simp [View.rotRows]
+  have := unflatten v.rotRows v.h hlenR
+  rw [hcount] at this
+  rw [← this]
+  simp only [View.baseRows, hh]
+  apply List.map_congr_left
+  intro y _
+  simp only [View.baseRow, hd, hW, hl, ht, hw, Nat.add_zero]
+
+theorem rotate_ok (v : View) (hv : v.WF) (hk : v.kind = .img) :
+    ∃ v', rotateCCW v = .ok v' ∧ v'.WF ∧ v'.kind = .img ∧ v'.inv = v.inv ∧ v'.abs = v.abs.rotCCW := by
+  have hrows : mapME (rotRow v) (List.range v.w) = .ok v.rotRows := by
+    unfold View.rotRows
+    apply mapME_eq_map
+    intro j hj
+    exact rotRow_ok v hv j (List.mem_range.mp hj)
+  unfold rotateCCW
+  rw [hk]
+  simp only [hrows]
+  refine ⟨_, rfl, ?_, rfl, rfl, ?_⟩
+  · -- well-formed: a fresh h x w array
+    have hlenR : ∀ r ∈ v.rotRows, r.length = v.h := by
+      intro r hr
+      simp only [View.rotRows, List.mem_map, List.mem_range] at hr
+      obtain ⟨j, _, rfl⟩ := hr
+      simp
+    have hfl := flatten_length_const v.rotRows v.h hlenR
+    have hcount : v.rotRows.length = v.w := by simp [View.rotRows]
+    refine ⟨?_, ?_, ?_, ?_⟩
+    · show v.h * v.w ≤ v.rotRows.flatten.length
+      rw [hfl, hcount]; omega
+    · show 0 + v.h ≤ v.h; omega
+    · show 0 + v.w ≤ v.w; omega
+    · intro p hp
+      show p ≤ 255
+      have hp' : p ∈ v.rotRows.flatten := hp
+      obtain ⟨r, hr, hpr⟩ := List.mem_flatten.mp hp'
+      simp only [View.rotRows, List.mem_map, List.mem_range] at hr
+      obtain ⟨j, hj, rfl⟩ := hr
+      simp only [List.mem_map, List.mem_range] at hpr
+      obtain ⟨i, hi, rfl⟩ := hpr
+      have := row_end_le v hv i hi
+      have hlt : (v.top + i) * v.dataW + (v.left + v.w - 1 - j) < v.data.length := by
+        rw [Nat.add_comm v.top i]; omega
+      unfold View.rotCell
+      rw [List.getElem?_eq_getElem hlt]
+      exact hv.bytes _ (List.getElem_mem hlt)
+  · -- denotes the rotated array
+    have hbase := rot_baseRows v { kind := Kind.img, data := v.rotRows.flatten, dataW := v.h, dataH := v.w, left := 0, top := 0, w := v.h, h := v.w, inv := v.inv } rfl rfl rfl rfl rfl rfl
+    unfold View.abs
+    simp only [hbase]
+    have hm : (Img.mk v.w v.h v.baseRows).WF := ⟨baseRows_length v, baseRows_row_length v hv⟩
+    by_cases hi : v.inv
+    · simp only [hi, if_true]
+      rw [rot_invert_rows _ hm, rotRows_eq v hv]
+      rfl
+    · simp only [hi]
+      rw [rotRows_eq v hv]
+      rfl
+
+theorem rotate_unsupported (v : View) (hk : v.kind ≠ .img) : rotateCCW v = .error .unsupported := by
+  unfold rotateCCW
+  cases h : v.kind with
+  | img => exact absurd h hk
+  | rgb => rfl
+  | yuv => rfl
+
+end Gzx.Luminance
